@@ -425,7 +425,99 @@ def rule_r7(chk):
            f"LOGGABLE_VARIABLE = {unparse(d) if d is not None else '?'}", qm.loc(d) if d is not None else qm.rel, sure=True)
 
 
+def rule_r8(chk, rid="C04-R8"):
+    chk.rule(rid, "the three recognisers of a time shift agree: the tokenizer of the final equation text (quantities.QUANTITY_OCCURRENCE_PATTERN, "
+             "applied after blanks are removed) fixes what a shift is; every signed integer it accepts, with blanks inserted anywhere, is also "
+             "accepted inside the square brackets by the pseudofunction name shifter (_NAME_MAYBE_WITH_SHIFT) and inside the curly braces by "
+             "standardize_time_shifts, and whatever standardize_time_shifts writes into square brackets is accepted by the name shifter - "
+             "decided as language inclusions between the parsed patterns (a shift the shifter does not see is silently left unshifted)",
+             floor=3, shape_independent=True)
+    from .. import rx, rxlint
+    rxlint.self_check()
+    qm = chk.repo.mod("irispie.quantities")
+    sm = chk.repo.mod("irispie.parsers._shifts")
+    pm = chk.repo.mod(PMOD)
+    def pat(mod, name):
+        v = rxlint.module_strings(chk.repo, mod).get(name)
+        if v is None:
+            raise AnalysisError(f"anchor vanished: pattern {name} in {mod.name} is not a string built from constants")
+        chk.saw(mod, "<module>")
+        return v
+    final = rx.parse(pat(qm, "QUANTITY_OCCURRENCE_PATTERN"))
+    inner = rxlint.between(final, "[", "]")
+    if inner is None:
+        raise AnalysisError("anchor vanished: no [ ... ] in QUANTITY_OCCURRENCE_PATTERN")
+    integers = rx.compile_regex(r"[+\-]?\d+")
+    domain = rxlint.blank_insertion(rxlint.intersection(rxlint.sub_dfa(inner), integers))
+    name_tree = rx.parse(pat(pm, "_NAME_MAYBE_WITH_SHIFT"))
+    square = rxlint.between(name_tree, "[", "]")
+    curly_tree = rx.parse(pat(sm, "_CURLY_TIME_SHIFT_PATTERN"))
+    curly = rxlint.between(curly_tree, "{", "}")
+    curly_group = rxlint.group_tree(curly_tree, 1)
+    if square is None or curly is None or curly_group is None:
+        raise AnalysisError("anchor vanished: bracketed shift in _NAME_MAYBE_WITH_SHIFT / _CURLY_TIME_SHIFT_PATTERN")
+    sq = rxlint.sub_dfa(square)
+    def nice_witness(a, b):
+        # prefer a plain padded integer as the witness
+        for w in (" -1 ", "-1 ", " -1", " +1 ", "+1", "-1", "- 1", "1 0"):
+            if a.accepts(w) and not b.accepts(w):
+                return w
+        return rx.included(a, b)[1]
+    ok, _ = rx.included(domain, sq)
+    chk.ob(rid, "parsers._pseudofunctions._NAME_MAYBE_WITH_SHIFT[square-bracket shift]", ok,
+           "accepts every blank-padded signed integer the final tokenizer accepts" if ok else
+           f"does not accept the shift {nice_witness(domain, sq)!r} that the final tokenizer reads as an integer once blanks are removed: inside a pseudofunction "
+           "the name keeps its bracket and is not shifted", pm.loc(pm.tree.body[0]), sure=True)
+    cu = rxlint.sub_dfa(curly)
+    ok, _ = rx.included(domain, cu)
+    chk.ob(rid, "parsers._shifts._CURLY_TIME_SHIFT_PATTERN[curly shift]", ok,
+           "accepts every blank-padded signed integer the final tokenizer accepts" if ok else
+           f"does not accept the shift {nice_witness(domain, cu)!r} in curly braces", sm.loc(sm.tree.body[0]), sure=True)
+    cg = rxlint.sub_dfa(curly_group)
+    ok, w = rx.included(cg, sq)
+    chk.ob(rid, "parsers._shifts.standardize_time_shifts[output accepted downstream]", ok,
+           "what is written into square brackets is a shift for the name shifter" if ok else f"writes [{w}] which the name shifter does not recognise",
+           sm.loc(sm.tree.body[0]), sure=True)
+
+
+def rule_r9(chk, rid="C04-R9"):
+    chk.rule(rid, "no pattern of the front end (parsers, sources, quantities, equations) has a greedy unbounded repeat of a wide atom (., a negated "
+             "set) directly followed by a closing literal or backreference the atom also matches: under sub/search semantics such a span "
+             "runs to the LAST closer and swallows the text between two separate spans (block comments, brackets); the lazy form stops at "
+             "the first", floor=15, shape_independent=True)
+    from .. import rx, rxlint
+    n_ex = rxlint.self_check()
+    n = 0
+    for m in chk.repo.modules.values():
+        top = m.name.split(".")[1] if "." in m.name else m.name
+        if top not in ("parsers", "sources", "quantities", "equations"):
+            continue
+        short = m.name.replace("irispie.", "")
+        for name, s_, flags, node in rxlint.patterns(chk.repo, m):
+            try:
+                tree = rx.parse(s_)
+            except AnalysisError:
+                continue
+            n += 1
+            spans = rxlint.greedy_spans(tree, dotall="DOTALL" in flags or "(?s" in s_)
+            key = f"{short}.{name or 'pattern@' + (chk_function_name(m, node) or 'module')}"
+            if spans:
+                chk.bad(rid, key, f"{s_!r}: {spans[0]}; two separate spans are merged into one match", m.loc(node))
+            else:
+                chk.ok(rid, key, f"{s_[:60]!r}: no greedy span over its own closer", m.loc(node))
+    chk.ok(rid, "self-check", f"{n_ex} embedded examples classified as expected; {n} patterns parsed", "")
+
+
+def chk_function_name(m, node):
+    for q, f in m.functions():
+        if f.lineno <= node.lineno <= (f.end_lineno or f.lineno):
+            return q
+    return None
+
+
 def run(chk):
+    chk.guard(rule_r8, chk)
+    chk.guard(rule_r9, chk)
     chk.guard(rule_r1_r3, chk)
     chk.guard(rule_r2, chk)
     chk.guard(rule_r4, chk)
